@@ -17,6 +17,7 @@ import (
 	"fmt"
 	"math/rand"
 	"net/http"
+	"runtime/debug"
 	"strconv"
 	"strings"
 	"time"
@@ -59,6 +60,8 @@ func c18Run(line string) string {
 		cfg[k] = v
 	}
 	var log []string
+	// a chain that re-enters itself recurses without bound: keep Go's fatal stack overflow quick
+	defer debug.SetMaxStack(debug.SetMaxStack(32 << 20))
 	saved := http.DefaultTransport
 	http.DefaultTransport = &c18Stub{"d", &log}
 	defer func() { http.DefaultTransport = saved }()
